@@ -43,7 +43,7 @@ def check(ctx, tier):
     routing(ctx, tk)
     tk.purity("C02.p", [ctx.func(q) for q in ['raggedarray.indexablearray.IndexableArray.__getitem__', 'raggedarray.indexablearray.IndexableArray.get_column_values', 'raggedarray.indexablearray.IndexableArray.subset']], "the operation does not write into its operands' buffers", content_only=True)
     from .. import hazards as _hz, scopes as _sc
-    _hz.generic(ctx, tk, "C02.z", _sc.scope(tk, "C02", depth=2))
+    _hz.generic(ctx, tk, "C02.z", _sc.scope(tk, "C02", depth=1))
     return {}
 
 
